@@ -65,7 +65,7 @@ def canonical(lp):
             Aub.append(-r)
             bub.append(-row["rhs"])
     info = D.var_info()
-    bounds = [(info[nm][0], info[nm][1]) for nm in names]
+    bounds = [tuple(lp["bound_edits"][nm]) if nm in (lp.get("bound_edits") or {}) else (info[nm][0], info[nm][1]) for nm in names]
     return names, c, (np.array(Aub) if Aub else None), (np.array(bub) if bub else None), \
         (np.array(Aeq) if Aeq else None), (np.array(beq) if beq else None), bounds
 
